@@ -83,7 +83,12 @@ pub fn dso_model(k: &Kernel, phdr: u64, phnum: u64) -> Option<DsoModel> {
         cur = le64(&lm, 24);
         let mut name = String::new();
         if l_name > 0 {
-            let nb = rd(k, l_name, 256)?;
+            // a 256-byte read that runs into unreadable memory legitimately comes back short
+            let avail = k.accessible_run(l_name, 256, false) as usize;
+            if avail == 0 {
+                return None;
+            }
+            let nb = k.read_mem_captured(l_name, avail);
             let end = nb.iter().position(|c| *c == 0).unwrap_or(nb.len());
             name = String::from_utf8(nb[..end].to_vec()).ok()?;
         }
